@@ -466,8 +466,133 @@ pub fn run_checksum(out: &mut Out, thorough: bool, rng: &mut Rng) {
     );
 }
 
+/// A SANE miniscript of tree height `h >= 2` that prints with nesting `h + 1`:
+/// `and_v(v:pk(K0),and_v(v:older(1),…and_v(v:older(1),or_d(multi(1,K1),older(1)))…))`
+/// (`multi_a` under Tap).  Every path needs K0's signature, no repeated keys, non-malleable,
+/// one kind of timelock; the deepest leaf `older(1)` is a terminal WITH an argument, which is
+/// what makes the printed nesting exceed the tree height by one.
+fn deep_sane_ms(height: usize, tap: bool) -> String {
+    let n = height - 2;
+    let (k0, k1) = if tap { (X1, X2) } else { (K1, K2) };
+    let mut s = format!("and_v(v:pk({}),", k0);
+    for _ in 0..n {
+        s.push_str("and_v(v:older(1),");
+    }
+    if tap {
+        s.push_str(&format!("or_d(multi_a(1,{}),older(1))", k1));
+    } else {
+        s.push_str(&format!("or_d(multi(1,{}),older(1))", k1));
+    }
+    for _ in 0..n + 1 {
+        s.push(')');
+    }
+    s
+}
+
+fn nesting_of(s: &str) -> usize {
+    let (mut d, mut m) = (0usize, 0usize);
+    for c in s.chars() {
+        if c == '(' || c == '{' {
+            d += 1;
+            m = m.max(d);
+        } else if c == ')' || c == '}' {
+            d = d.saturating_sub(1);
+        }
+    }
+    m
+}
+
+/// Descriptor-level round trip at the nesting limit of the expression parser.
+///
+/// `from_ast` accepts a Miniscript of tree height 402, which prints with nesting 403 — accepted by
+/// the expression parser since /repo 4d088e26 (limit MAX_RECURSION_DEPTH + 1 = 403).  A
+/// descriptor adds levels on top: `tr(K,` one, every level of the tap tree one more (`{`), so a
+/// `tr()` descriptor the library constructs (Descriptor::new_tr, leaves validated) can print
+/// with nesting 404 and more, which `Descriptor::from_str` then rejects
+/// (MaxRecursionDepthExceeded).  Under Segwitv0/Legacy the 201-opcode limit (enforced by
+/// Wsh::new / Sh::new since /repo f6816493) keeps nesting far below the limit: every nested
+/// fragment costs at least one opcode, so `wsh(…)` never gets near it; the deepest constructible
+/// ones are judged too.
+///
+/// line: `J descdepth <verdict> nesting=<printed nesting> <wrapper> taptree-depth=<t> leaf-height=<h> chars=<len>`
+pub fn run_desc_depth(out: &mut Out) {
+    use miniscript::descriptor::TapTree;
+    use miniscript::{Miniscript, Segwitv0, Tap};
+    type Pk = DescriptorPublicKey;
+    quiet_panics();
+    // (wrapper, tap-tree depth of the deep leaf, tree height of the deep leaf)
+    let mut cases: Vec<(&str, usize, usize)> = vec![
+        ("wsh", 0, 20), ("wsh", 0, 90), ("sh-wsh", 0, 20), ("sh-wsh", 0, 90),
+        ("wsh", 0, 402), ("sh-wsh", 0, 402), // not constructible (op limit): counted, not judged
+        ("tr", 0, 2), ("tr", 0, 100), ("tr", 0, 400), ("tr", 0, 401), ("tr", 0, 402),
+    ];
+    for t in [1usize, 2, 64, 127, 128] {
+        cases.push(("tr", t, 400 - t)); // nesting 402
+        cases.push(("tr", t, 401 - t)); // nesting 403: the deepest the parser accepts
+        cases.push(("tr", t, 402 - t)); // nesting 404
+    }
+    cases.push(("tr", 128, 402)); // nesting 532
+    for (wrapper, t, h) in cases {
+        let built: Result<Result<String, String>, ()> = catch_unwind(AssertUnwindSafe(|| {
+            let d: Result<Descriptor<Pk>, String> = match wrapper {
+                "wsh" => Miniscript::<Pk, Segwitv0>::from_str(&deep_sane_ms(h, false))
+                    .map_err(|e| e.to_string())
+                    .and_then(|ms| Descriptor::new_wsh(ms).map_err(|e| e.to_string())),
+                "sh-wsh" => Miniscript::<Pk, Segwitv0>::from_str(&deep_sane_ms(h, false))
+                    .map_err(|e| e.to_string())
+                    .and_then(|ms| Descriptor::new_sh_wsh(ms).map_err(|e| e.to_string())),
+                _ => Miniscript::<Pk, Tap>::from_str(&deep_sane_ms(h, true)).map_err(|e| e.to_string()).and_then(|ms| {
+                    let mut tree = TapTree::leaf(ms);
+                    for _ in 0..t {
+                        let side = Miniscript::<Pk, Tap>::from_str(&format!("pk({})", X2)).map_err(|e| e.to_string())?;
+                        tree = TapTree::combine(tree, TapTree::leaf(side)).map_err(|e| e.to_string())?;
+                    }
+                    let k = Pk::from_str(X1).map_err(|e| e.to_string())?;
+                    Descriptor::new_tr(k, Some(tree)).map_err(|e| e.to_string())
+                }),
+            };
+            d.map(|d| d.to_string())
+        }))
+        .map_err(|_| ());
+        match built {
+            Err(()) => {
+                out.line(&format!("J descdepth PANIC-in-construction nesting=0 {} taptree-depth={} leaf-height={} chars=0", wrapper, t, h), "ok");
+            }
+            Ok(Err(e)) => {
+                // the library refuses to construct it: nothing to round-trip
+                let why = if e.contains("non-push opcodes") { "op-limit" } else if e.contains("recursion depth") { "depth" } else { "other" };
+                out.count(&format!("descdepth {} taptree-depth={} leaf-height={} not-constructible:{}", wrapper, t, h, why));
+            }
+            Ok(Ok(printed)) => {
+                let v = match catch_unwind(AssertUnwindSafe(|| Descriptor::<Pk>::from_str(&printed))) {
+                    Ok(Ok(d2)) => {
+                        if d2.to_string() == printed { "accepted".to_string() } else { "reprint-differs".to_string() }
+                    }
+                    Ok(Err(e)) => {
+                        if e.to_string().contains("maximum recursion depth") {
+                            "rejected:MaxRecursionDepthExceeded".to_string()
+                        } else {
+                            "rejected:other".to_string()
+                        }
+                    }
+                    Err(_) => "PANIC".to_string(),
+                };
+                out.count(&format!("descdepth {} {}", wrapper, v));
+                out.line(
+                    &format!(
+                        "J descdepth {} nesting={} {} taptree-depth={} leaf-height={} chars={}",
+                        v, nesting_of(&printed), wrapper, t, h, printed.len()
+                    ),
+                    "ok",
+                );
+            }
+        }
+    }
+}
+
 pub fn run(out: &mut Out, thorough: bool, seed: u64) {
     let mut rng = Rng(seed ^ 0xC10);
     run_checksum(out, thorough, &mut rng);
+    run_desc_depth(out);
     crate::c10b::run_roundtrip(out, thorough, &mut rng);
 }
